@@ -157,7 +157,7 @@ func (in treeInput) describe() string {
 
 // relName describes an instance by its tree relation (stable across seeds).
 func relName(x *inst) string {
-	s := []string{"", "root", "child", "grandchild"}[x.depth()]
+	s := []string{"", "root", "child", "grandchild", "great-grandchild", "deeper descendant"}[min(x.depth(), 5)]
 	if x.Dep != nil && x.Dep.Alias != "" {
 		s = "aliased " + s
 	}
@@ -276,7 +276,7 @@ func checkTree(res *core.Result, in treeInput, idx int, verbose bool) {
 			}
 			if badInst != nil && !live[badInst] && strings.Contains(o.err.Error(), "forbidden") {
 				da := disabledAncestor(badInst, on)
-				add(res, seen, "disabled-dependency-contributes", fmt.Sprintf("schema check of a disabled %s rejected the values; disabled by %s%s", relName(badInst), decidedBy(da, why[da], in.User), strat(in)), "route %s: %v | %s", rt.name, o.err, input())
+				add(res, seen, "disabled-dependency-contributes", fmt.Sprintf("schema check of a disabled %s rejected the values; disabled by %s%s", relOr(badInst, decidedBy(da, why[da], in.User)), decidedBy(da, why[da], in.User), strat(in)), "route %s: %v | %s", rt.name, o.err, input())
 				continue
 			}
 			res.Add("render-error", rt.name+": "+firstWords(o.err.Error(), 5)+strat(in), "%v | %s", o.err, input())
@@ -349,7 +349,7 @@ func checkTree(res *core.Result, in treeInput, idx int, verbose bool) {
 			switch x := byPath[cp]; {
 			case x != nil:
 				da := disabledAncestor(x, on)
-				add(res, seen, "disabled-dependency-contributes", fmt.Sprintf("%s of a disabled %s rendered; disabled by %s%s", kinds, relName(x), decidedBy(da, why[da], in.User), strat(in)),
+				add(res, seen, "disabled-dependency-contributes", fmt.Sprintf("%s of a disabled %s rendered; disabled by %s%s", kinds, relOr(x, decidedBy(da, why[da], in.User)), decidedBy(da, why[da], in.User), strat(in)),
 					"route %s: %s contributes %s although %s is disabled (%s) | %s", rt.name, cp, kinds, da.path(), why[da], input())
 			case origPath[cp] != nil:
 				add(res, seen, "alias", fmt.Sprintf("%s of an %s appears under the original chart name%s", kinds, relName(origPath[cp]), strat(in)), "route %s: %s | %s", rt.name, cp, input())
@@ -374,7 +374,7 @@ func checkTree(res *core.Result, in treeInput, idx int, verbose bool) {
 			setOK = false
 			x := byPath[cp]
 			kinds := strings.Join(gen.SortedKeys(missing[cp]), "+")
-			add(res, seen, "enabled-dependency-absent", fmt.Sprintf("%s of an enabled %s missing; enabled by %s%s", kinds, relName(x), decidedBy(x, why[x], in.User), strat(in)),
+			add(res, seen, "enabled-dependency-absent", fmt.Sprintf("%s of an enabled %s missing; enabled by %s%s", kinds, relOr(x, decidedBy(x, why[x], in.User)), decidedBy(x, why[x], in.User), strat(in)),
 				"route %s: %s contributes no %s although it is enabled (%s) | %s", rt.name, cp, kinds, why[x], input())
 			break
 		}
@@ -473,7 +473,7 @@ func checkTree(res *core.Result, in treeInput, idx int, verbose bool) {
 				if posted["things."+d+".example.com"] {
 					x := deadInst[d]
 					da := disabledAncestor(x, on)
-					add(res, seen, "disabled-dependency-contributes", fmt.Sprintf("CRD of a disabled %s is sent to the cluster by a real install; disabled by %s%s", relName(x), decidedBy(da, why[da], in.User), strat(in)),
+					add(res, seen, "disabled-dependency-contributes", fmt.Sprintf("CRD of a disabled %s is sent to the cluster by a real install; disabled by %s%s", relOr(x, decidedBy(da, why[da], in.User)), decidedBy(da, why[da], in.User), strat(in)),
 						"POST customresourcedefinitions things.%s.example.com although %s is disabled (%s); install err=%v | %s", d, da.path(), why[da], r.Err, input())
 					break
 				}
@@ -491,7 +491,7 @@ func checkTree(res *core.Result, in treeInput, idx int, verbose bool) {
 	}
 
 	// --- isolation re-render: perturb only one sibling's section
-	if first != nil && first.err == nil && in.Stratum != "table1" && in.Stratum != "table2" {
+	if first != nil && first.err == nil && !strings.HasPrefix(in.Stratum, "table") {
 		var cands []*inst
 		for _, x := range insts {
 			if x.Parent != nil && live[x] {
@@ -568,15 +568,23 @@ func checkTree(res *core.Result, in treeInput, idx int, verbose bool) {
 		shape = append(shape, s)
 	}
 	sort.Strings(shape)
-	if in.Stratum == "table1" || in.Stratum == "table2" {
-		res.Stat("truth_table_rows_"+in.Stratum, int64(len(insts)-1-btoi(in.Stratum == "table2")))
+	if strings.HasPrefix(in.Stratum, "table") {
+		res.Stat("truth_table_rows_"+in.Stratum, int64(len(insts)-1-map[string]int{"table2": 1, "table3": 2}[in.Stratum]))
 		for _, x := range insts {
-			if x.Dep != nil && (in.Stratum == "table1" || x.depth() == 3) {
+			if x.Dep != nil && x.depth() == map[string]int{"table1": 2, "table2": 3, "table3": 4}[in.Stratum] {
 				res.Key("%s|%s|%s|on=%v", in.Stratum, condShape(x.Dep), firstWords(why[x], 1), on[x])
 			}
 		}
 	} else if nDisabled > 0 || nAliased > 0 || len(insts) > 2 {
 		res.Key("%s|%s", in.Stratum, strings.Join(shape, ";"))
+	}
+	for _, x := range insts {
+		if x.depth() >= 4 {
+			res.Stat("instances_four_charts_deep", 1)
+			if !live[x] {
+				res.Stat("disabled_instances_four_charts_deep", 1)
+			}
+		}
 	}
 	res.Stat("trees", 1)
 	res.Stat("disabled_instances", int64(nDisabled))
@@ -596,8 +604,10 @@ func add(res *core.Result, seen map[string]bool, clause, class, format string, a
 	res.Add(clause, class, format, a...)
 }
 
-// decidedBy names the clause of the rule that decided and, for conditions, which source holds the
-// deciding value: user values, a values.yaml of the parent chain, or the dependency's own values.yaml.
+// decidedBy names what decided and, for conditions, whether the deciding value comes from a
+// values.yaml that sits below an aliased chart two or more levels under the root (helm merges those
+// under the chart's ORIGINAL name when it evaluates conditions: known defect D2). Everything else is
+// plainly "the rule".
 func decidedBy(x *inst, why string, user map[string]any) string {
 	if !strings.HasPrefix(why, "condition ") {
 		return "the rule"
@@ -608,19 +618,38 @@ func decidedBy(x *inst, why string, user map[string]any) string {
 	if _, ok := lookup(ref.CanonMap(user), abs); ok {
 		return "the rule"
 	}
+	// aliasedBelow: some chart at depth >= 3 on the chain root..s is aliased
+	aliasedBelow := func(s *inst) bool {
+		for a := s; a != nil; a = a.Parent {
+			if a.depth() >= 3 && a.Dep != nil && a.Dep.Alias != "" {
+				return true
+			}
+		}
+		return false
+	}
+	// sources in precedence order: the root's values.yaml first, the parent's last, then the dependency's own
+	var chain []*inst
 	for a := par; a != nil; a = a.Parent {
+		chain = append([]*inst{a}, chain...)
+	}
+	for _, a := range chain {
 		rel := strings.TrimPrefix(strings.TrimPrefix(abs, strings.Join(a.keyPath(), ".")), ".")
 		if _, ok := lookup(ref.CanonMap(a.Def.Values), rel); ok {
+			if aliasedBelow(a) {
+				return "a condition value from the values.yaml of a chart at or below an aliased sub-subchart"
+			}
 			return "the rule"
 		}
 	}
-	return "a condition value found only in the dependency's own values.yaml"
+	if strings.HasPrefix(p, x.Name+".") && aliasedBelow(x) {
+		return "a condition value found only in the dependency's own values.yaml"
+	}
+	return "the rule"
 }
 
-// nestedGlobalClass: one recognised cause shape — a value that sits inside a table nested in `global`
-// (global.<table>.<key>...) shows up in a chart that is not below the chart/section that set it
-// (or, having leaked upwards, comes back down with an ancestor's precedence). Any wrong, non-missing
-// value at such a path gets this class; flat global keys and missing values keep precise classes.
+// nestedGlobalClass: one recognised cause shape (fixed in helm: coalesceGlobals now deep-copies) — a
+// value that sits inside a table nested two levels deep in `global` shows up in a chart that is not
+// below the chart/section that set it. It is only a class name; it is not a known finding.
 const nestedGlobalClass = "a value inside a table nested two levels deep in global (global.<t1>.<t2>.<key>) is visible outside the subtree that set it (leak to parent / siblings)"
 
 // nestedGlobal: the path runs through `global` and at least three more keys.
@@ -632,6 +661,15 @@ func nestedGlobal(path string) bool {
 		}
 	}
 	return false
+}
+
+// relOr: the tree relation of x, unless the deciding value has the D2 shape (then the relation is
+// irrelevant to the cause and left out, so that the defect has few signatures).
+func relOr(x *inst, decided string) string {
+	if decided != "the rule" {
+		return "dependency two or more levels below the root"
+	}
+	return relName(x)
 }
 
 func btoi(b bool) int {
